@@ -214,11 +214,13 @@ def run(pid, tier, seed, replay):
             if pid in PRIMITIVES:
                 import relprops
                 pr = relprops.run_primitives(tier, seed, wd)
+                if "unavailable" in pr:
+                    log("NOTE model-drift property=%s primitive-level replay unavailable: the harness for the crate's private primitives does not compile against this tree (%s)" % (pid, pr["unavailable"]))
                 for d in pr["drift"][:10]:
                     log("NOTE model-drift property=%s primitive contracts: case %s unit_ok=%s primitives=%s" % ((pid,) + tuple(d)))
                 extra["primitive_level"] = {"module": "spec/Trace_Rel.tla", "cases": pr["cases"], "primitive_calls": pr["ops"],
                                             "accepted_cases": pr["accepted"], "networks": pr["networks"], "primitives": pr["primitives"],
-                                            "drift": [list(d) for d in pr["drift"][:10]],
+                                            "drift": [list(d) for d in pr["drift"][:10]], "unavailable": pr.get("unavailable"),
                                             "note": "every symbolic primitive called on arbitrary raw relations (also outside the unit set, also on "
                                                     "units restricted over the variable copies) and compared with its contract in spec/Rel.tla; "
                                                     "disagreement is model drift (NOTE), never a violation by itself"}
